@@ -215,7 +215,9 @@ class HistEngine(EngineBase):
             return ch.choice(self.noped, "noped")
         if r == 5 and self.noped:
             n = ch.choice(self.noped, "noped")
-            return ch.choice(["dep_" + n, "IMPORTED_" + n, "undocumented_" + n, n + "_undocumented"], "noped-alias")
+            return ch.choice(["dep_" + n, "IMPORTED_" + n, "undocumented_" + n, n + "_undocumented",
+                              # not on the list: merely starts (or ends) like a listed name
+                              n + "_pair", n + "s", "dep_" + n + "_v2", "x" + n, n[:-1]], "noped-alias")
         if r in (6, 7):
             # the API takes any name: a name this history already compiled (with another behaviour), else any other one
             if used:
